@@ -30,6 +30,10 @@ type ggOpts struct {
 	// aliasRoutes biases generation towards the in-place mutation sites named by C02's anchors
 	aliasRoutes bool
 	allOutputs  bool // declare every intermediate value as graph output
+	// continuousOnly leaves out operators whose result is a discontinuous function of float inputs
+	// (comparisons, ArgMax, Cast to integers), so that metamorphic relations with a rounding
+	// tolerance cannot be upset by a legitimately flipped tie
+	continuousOnly bool
 }
 
 type ggraph struct {
@@ -205,6 +209,9 @@ func tBinaryValues(gg *ggraph, rt *rapid.T) bool {
 }
 
 func tCompareLogic(gg *ggraph, rt *rapid.T) bool {
+	if gg.opts.continuousOnly {
+		return false
+	}
 	if b, ok := gg.pick(rt, "boolIn", func(v gv) bool { return v.dt == tensor.Bool }); ok && rapid.Bool().Draw(rt, "logic") {
 		if rapid.IntRange(0, 2).Draw(rt, "not") == 0 {
 			gg.emit("Not", []string{b.name}, []gv{gg.out(cloneInts(b.shape), tensor.Bool, b.batch)})
@@ -458,7 +465,7 @@ func tReduce(gg *ggraph, rt *rapid.T) bool {
 	cand := nonBatchAxes(v)
 	axis := rapid.SampledFrom(cand).Draw(rt, "redAxis")
 	keep := rapid.Bool().Draw(rt, "redKeep")
-	if rapid.IntRange(0, 2).Draw(rt, "argmax") == 0 && v.dt == tensor.Float32 {
+	if rapid.IntRange(0, 2).Draw(rt, "argmax") == 0 && v.dt == tensor.Float32 && !gg.opts.continuousOnly {
 		// ArgMax keepdims: keep the reduced axis as 1 or drop it
 		out := reducedShape(v.shape, []int{axis}, keep)
 		nb := v.batch
@@ -529,6 +536,9 @@ func tShapeCastConst(gg *ggraph, rt *rapid.T) bool {
 			return false
 		}
 		to := rapid.SampledFrom([]tensor.Dtype{tensor.Float64, tensor.Int64, tensor.Int32, tensor.Float32}).Draw(rt, "castTo")
+		if gg.opts.continuousOnly {
+			to = tensor.Float64
+		}
 		gg.emit("Cast", []string{v.name}, []gv{gg.out(cloneInts(v.shape), to, v.batch)}, attrI("to", int64(onnxTypeOf[to])))
 	case 2:
 		shape := genShape(0, 2, 3, 9).Draw(rt, "constShape")
@@ -584,7 +594,7 @@ func tRecurrent(gg *ggraph, rt *rapid.T) bool {
 	// needs a float32 value (S,B,I) with the batch on axis 1, or (B,S,I) with batch on axis 0 which
 	// is first transposed (as in the repository's sample models)
 	x, ok := gg.pick(rt, "rnnX", func(v gv) bool {
-		return isF32(v) && len(v.shape) == 3 && !v.init && (v.batch == 1 || v.batch == 0) && v.shape[2]*v.shape[v.batch] > 1
+		return isF32(v) && len(v.shape) == 3 && !v.init && (v.batch == 1 || v.batch == 0) && v.shape[2]*v.shape[v.batch] > 1 && (v.shape[2] > 1 || len(gg.nodes)%4 == 0)
 	})
 	if !ok {
 		return false
@@ -595,6 +605,9 @@ func tRecurrent(gg *ggraph, rt *rapid.T) bool {
 		x = t
 	}
 	S, B, I := x.shape[0], x.shape[1], x.shape[2]
+	if I == 1 {
+		gg.feat("recurrent-input-size-1")
+	}
 	H := rapid.IntRange(2, 4).Draw(rt, "rnnH")
 	kind := rapid.SampledFrom([]string{"RNN", "GRU", "LSTM"}).Draw(rt, "rnnKind")
 	G := map[string]int{"RNN": 1, "GRU": 3, "LSTM": 4}[kind]
